@@ -145,17 +145,17 @@ func c13R2(a *A, cd *codec) {
 			continue
 		}
 		// the column object of the iteration
-		var col *ssa.Call
-		instrs(rl.Fn, func(in ssa.Instruction) {
-			if c, ok := in.(*ssa.Call); ok && c.Common().StaticCallee() != nil && c.Common().StaticCallee().Name() == "newColumnData" && rl.Header.Dominates(c.Block()) {
-				col = c
-			}
-		})
-		if !a.need(col != nil, rule, "newColumnData in "+fn) {
+		co := rl.columnObject()
+		if !a.need(co != nil, rule, "ColumnData of the iteration (constructor call or composite literal) in "+fn) {
 			continue
 		}
-		isEmptyArg, _ := constBool(col.Common().Args[2])
-		a.check(!isEmptyArg, rule, "three-way@"+fn+"[init]", w.posOf(col), "columns start as not-absent", "columns are created with IsEmpty=true")
+		col := co.Val
+		isEmptyArg := false
+		if co.IsEmptyV != nil {
+			b, isC := constBool(co.IsEmptyV)
+			isEmptyArg = !isC || b
+		}
+		a.check(!isEmptyArg, rule, "three-way@"+fn+"[init]", w.posOf(co.Pos), "columns start as not-absent", "columns are created with IsEmpty=true")
 		var valRes ssa.Value
 		for _, ref := range *rl.Len.Referrers() {
 			if ex, ok := ref.(*ssa.Extract); ok && ex.Index == 0 {
@@ -171,7 +171,7 @@ func c13R2(a *A, cd *codec) {
 				for _, in := range b.Instrs {
 					switch x := in.(type) {
 					case *ssa.Store:
-						if fa, ok := x.Addr.(*ssa.FieldAddr); ok && fa.X == ssa.Value(col) {
+						if fa, ok := x.Addr.(*ssa.FieldAddr); ok && fa.X == col {
 							switch fieldName(fa) {
 							case "IsEmpty":
 								emptyStores = append(emptyStores, x)
@@ -180,7 +180,7 @@ func c13R2(a *A, cd *codec) {
 							}
 						}
 						// the column stored into the variadic array of an append
-						if x.Val == ssa.Value(col) {
+						if x.Val == col {
 							if ia, ok := x.Addr.(*ssa.IndexAddr); ok {
 								if _, ok := ia.X.(*ssa.Alloc); ok {
 									appends++
